@@ -2341,7 +2341,15 @@ func (d *AuthenticatedGossiper) processZombieUpdate(_ context.Context,
 			"with chan_id=%v", msg.ShortChannelID)
 	}
 
-	err := netann.VerifyChannelUpdateSignature(msg, pubKey)
+	// The capacity of a zombie channel is unknown, so only the
+	// capacity-independent field checks can be done here.
+	err := netann.ValidateChannelUpdateFields(0, msg)
+	if err != nil {
+		return fmt.Errorf("invalid channel update for zombie "+
+			"chan_id=%v: %w", msg.ShortChannelID, err)
+	}
+
+	err = netann.VerifyChannelUpdateSignature(msg, pubKey)
 	if err != nil {
 		return fmt.Errorf("unable to verify channel "+
 			"update signature: %v", err)
